@@ -20,6 +20,7 @@ TInit == s = [m |-> "none"] /\ l = 1 /\ InitProgress
 TReset == /\ l <= Len(T) /\ Ev.e = "Reset" /\ Ev.m \in Machines
           /\ s' = InitOf(Ev.m) /\ ViewOK(InitOf(Ev.m), Ev.o) /\ l' = l + 1
 TCall == /\ l <= Len(T) /\ Ev.e # "Reset" /\ s.m # "none"
+         /\ Ev.e # "ABORT"                                      \* a truncated execution (crash / sanitizer abort) is never accepted
          /\ IF Ev.e \in EventsOf(s.m) /\ Pre(s, Ev) THEN TRUE ELSE PrintT(<<"HARNESS", l>>) /\ FALSE      \* malformed call: broken check, not a finding
          /\ LET n == Apply(s, Ev) IN s' = n /\ ViewOK(n, Ev.o)
          /\ l' = l + 1
